@@ -18,9 +18,14 @@ RULE = ("One real responder; register/update/unregister of 0..6 services (1..3 t
         "1..4 class-IN questions (PTR/A/AAAA/SRV/TXT/ANY/NSEC/unknown over registered, re-cased and unregistered names "
         "and the enumeration name) with known-answer lists at TTL below/at/above half, sent from a legacy (non-5353) "
         "source port so that the complete answer set comes back in the unicast reply. The reply is decoded by the "
-        "independent codec and compared with ModelRegistry. Non-trivial = at least one query was answered and at least "
+        "independent codec and compared with ModelRegistry. 15 % of the runs split half of their queries into a truncated "
+        "packet and a completing packet 110..280 ms later (more known answers, or a probe with authority records): the "
+        "reply must be the one to the assembled query. Non-trivial = at least one query was answered and at least "
         "two registry operations took effect.")
 ASSUMPTIONS = [
+    "a packet that meets held truncated packets 400..500 ms after the last of them (the responder's own random release "
+    "time) is not judged either way; a held query that is released by the timer is judged at its reply, and not at all "
+    "when it stays unanswered (C12 owns that)",
     "ModelRegistry changes state when the awaited API call takes effect (register: at return; update/unregister: at the call)",
     "NSEC answers are judged by type, denied rdtypes and TTL; their owner may be the instance or the host name; an NSEC is "
     "required only when no registered service on that host name has an address of the asked type",
@@ -134,8 +139,28 @@ def generate(rng, tier):
                 ops.append({"t": round(max(0.01, o["t"] - rng.choice([0.005, 0.02, 0.06, 0.11, 0.3, 0.9, 1.1])), 7),
                             "op": "send", "p": "Q", "src_port": 5353, "msg": {"q": qs, "id": 0}})
     ops.sort(key=lambda o: o["t"])
+    split = rng.random() < 0.15
+    if split:
+        # queries that come as a truncated packet (questions and known answers) followed 110..280 ms later - inside the
+        # 400 ms the responder waits - by the packet that completes them, from the same source port: more known
+        # answers, or the probe for a name the querier is about to claim (RFC 6762 8.1: questions plus authority
+        # records, no known answers of its own). What the first packet listed as known stays known
+        for o in ops:
+            if o["op"] == "send" and o.get("src_port") == 5354 and rng.random() < 0.5:
+                o["msg"]["tc"] = 1
+                if rng.random() < 0.6:
+                    nm = "Newcomer." + svcs[0]["type"].split("._sub.")[-1]
+                    m2 = {"q": [[nm, wire.T_ANY, 0]], "id": o["msg"]["id"] + 5000,
+                          "ns": [wire.RR(nm, wire.T_SRV, 120, (0, 0, 99, "newcomer.local.")).to_json()]}
+                else:
+                    q2 = _query(rng, 0.0, svcs, list(state.values()), o["msg"]["id"] + 5000)
+                    m2 = q2["msg"]
+                o["then"] = {"dt": rng.choice([0.11, 0.15, 0.2, 0.28]), "msg": m2}
     faults = {"max_delay_us": rng.choice([0, 2000, 100000]), "loop_delay_us": rng.choice([0, 1000]),
               "dup_p": rng.choice([0.0, 0.2]), "grid_p": 0.0}
+    if split:
+        # (a late copy of a truncated packet would be held and answered on its own by the timer: C12's subject)
+        faults["dup_p"] = 0.0
     return {"timer_slop_us": rng.choice([0, 0, 0.1]), "ops": ops, "faults": faults, "end": round(t + 4.0, 3)}
 
 
@@ -296,6 +321,9 @@ def execute(scenario, seed, overrides=None):
                     reg.unregister(arg)
 
         guards = GuardSet()
+        held, held_t = {}, {}
+        skip = set()
+        amb = {}
 
         def on_rx(t, rsock, data, addr, tx_idx, copy):
             if rsock.owner.name != "R":
@@ -306,6 +334,74 @@ def execute(scenario, seed, overrides=None):
             guards.accept(rsock.label, data, t * 1000.0, bool(msg and any(q.qu for q in msg.questions)), addr)
             if msg is None or msg.is_response or addr[1] != 5354:
                 return
+            src = (addr[0], addr[1])
+            apply_api()
+            if not reg.s:
+                # a responder with nothing registered does not listen to queries at all: the packet neither completes a
+                # held query nor is it held
+                return
+            if msg.tc:
+                # held until the packet that completes the query arrives (the generator sends it within the 400 ms the
+                # responder waits; if that one is not listened to, the timer releases the query - see on_tx)
+                if src in held and t - held_t[src] >= 0.4 - 1e-6:
+                    # ... nor whether this packet joins the held ones or starts a query of its own
+                    amb.setdefault(src, {held[src][0].id}).add(msg.id)
+                held.setdefault(src, []).append(msg)
+                held_t[src] = t
+
+                def lapse(src=src, t=t):
+                    # released by the responder's timer by now; it had nothing to say (else on_tx saw the reply) -
+                    # whether it should have is C12's liveness clause, not judged here
+                    if held_t.get(src) == t and src in held:
+                        held.pop(src)
+                        amb.pop(src, None)
+                        stats["held_query_lapsed"] = stats.get("held_query_lapsed", 0) + 1
+
+                w.loop.call_at(t + 0.5 + 0.003, lapse)
+                stats["truncated_packets_held"] = stats.get("truncated_packets_held", 0) + 1
+                return
+            if src in held and (t - held_t[src] >= 0.4 - 1e-6 or src in amb):
+                # the responder's timer (400..500 ms, its own draw) may or may not have released the held packets by
+                # now: whether this packet completes them or stands alone is not decided here
+                pk = held.pop(src)
+                for i in {pk[0].id, msg.id} | amb.pop(src, set()):
+                    skip.add((i, t))
+                stats["completion_in_release_window"] = stats.get("completion_in_release_window", 0) + 1
+                return
+            note_query(held.pop(src, []) + [msg], t)
+
+        def assemble(pkts):
+            if len(pkts) == 1:
+                return pkts[0]
+            # the query is the questions of all its packets; known are the answer sections of the packets that are
+            # not probes (a probe's records are the ones its sender is about to claim, in the authority section);
+            # the reply carries the id of the first packet
+            stats["assembled_queries"] = stats.get("assembled_queries", 0) + 1
+            if any(p.authorities for p in pkts):
+                stats["assembled_with_probe"] = stats.get("assembled_with_probe", 0) + 1
+            return wire.Msg(id_=pkts[0].id, questions=[q for p in pkts for q in p.questions],
+                            answers=[r for p in pkts if not p.authorities for r in p.answers])
+
+        def on_tx(tx):
+            # a held query whose completing packet never came (or was not listened to) is answered when the
+            # responder's timer releases it, 400..500 ms after its last packet: its unicast reply shows the instant
+            if tx.host != "R" or tx.multicast or tx.dst[1] != 5354 or tx.msg is None:
+                return
+            src = (tx.dst[0], tx.dst[1])
+            pkts = held.get(src)
+            if pkts and tx.msg.id in amb.get(src, ()):
+                skip.add((tx.msg.id, tx.t))
+                return
+            if pkts and pkts[0].id == tx.msg.id and (tx.msg.id, tx.t) not in expect and (tx.msg.id, tx.t) not in skip:
+                if not (0.4 - 1e-6 <= tx.t - held_t[src] <= 0.5 + 0.002):
+                    out.add("C03.held-query-release-time", f"truncated query {tx.msg.id} answered {tx.t - held_t[src]:.4f} s "
+                            "after its last packet without a completing packet, expected 0.4..0.5 s")
+                held.pop(src)
+                stats["released_by_timer"] = stats.get("released_by_timer", 0) + 1
+                note_query(pkts, tx.t)
+
+        def note_query(pkts, t):
+            msg = assemble(pkts)
             apply_api()
             stats["queries"] += 1
             if any(e["op"] == "register" and e["t_done"] is None for e in w.api_log):
@@ -347,13 +443,14 @@ def execute(scenario, seed, overrides=None):
                                                              for s in reg.s.values()))}
 
         w.net.on_rx = on_rx
+        w.net.on_tx = on_tx
 
         async def main():
             drv.schedule_all()
             await w.sleep_until(scenario["end"])
 
         w.run(main())
-        _oracle(w, expect, stats, out)
+        _oracle(w, expect, stats, out, skip)
         _multicast_state_clause(w, drv, stats, out)
         if w.loop.exceptions:
             out.add("C03.loop-exception", f"exception reached the loop handler: {w.loop.exceptions[0]}")
@@ -370,7 +467,7 @@ def execute(scenario, seed, overrides=None):
     return out
 
 
-def _oracle(w, expect, stats, out):
+def _oracle(w, expect, stats, out, skip=()):
     replies = {}
     for tx in w.net.trace:
         if tx.host != "R" or tx.multicast or tx.dst[1] != 5354:
@@ -384,7 +481,7 @@ def _oracle(w, expect, stats, out):
         for tx in txs:
             byt.setdefault((qid, tx.t), []).append(tx)
     for key in byt:
-        if key not in expect:
+        if key not in expect and key not in skip:
             out.add("C03.unsolicited-reply", f"unicast reply id {key[0]} at {w.rel(key[1]):.6f} answers no delivered query")
     groups = {}
     for (qid, tq), ex in sorted(expect.items()):
